@@ -189,6 +189,16 @@ def main():
                 program(m, [], place(BASE_DECLS, ['#[ds(::ascent::rel)] #[ds(::ascent::rel)] relation r2(i32);'], pos), [], BASE_RULES),
                 program(m, [], place(BASE_DECLS, ['#[ds(::ascent::rel)] relation r2(i32);'], pos), [], BASE_RULES),
                 'multiple `ds` attributes specified')
+        # unknown attributes of a relation / lattice declaration are handed on to the field of the generated struct, where rustc
+        # rejects them - single identifiers and paths alike
+        for pos in ([0, 3, 7] if tier == 'thorough' else [3]):
+            for dk, decl in (('rel', 'relation r2(i32);'), ('lat', 'lattice l2(i32, i32);')):
+                add('unknown_%s_attr' % dk, 'pos%d' % pos, m,
+                    program(m, [], place(BASE_DECLS, ['#[frobnicate] ' + decl], pos), [], BASE_RULES),
+                    program(m, [], place(BASE_DECLS, ['#[allow(unused)] ' + decl], pos), [], BASE_RULES), 'cannot find attribute')
+                add('unknown_%s_attr_path' % dk, 'pos%d' % pos, m,
+                    program(m, [], place(BASE_DECLS, ['#[bogus_tool::marker] ' + decl], pos), [], BASE_RULES),
+                    program(m, [], place(BASE_DECLS, ['#[allow(unused)] ' + decl], pos), [], BASE_RULES), '`bogus_tool`')
         add('unknown_inner_attr', 'x', m,
             program(m, ['#![frobnicate]'], BASE_DECLS, [], BASE_RULES),
             program(m, ['#![measure_rule_times]'], BASE_DECLS, [], BASE_RULES), 'unrecognized attribute')
